@@ -51,6 +51,7 @@ type deferredPre struct {
 
 // Frame is the symbolic execution of one function body (top level or inlined).
 type Frame struct {
+	appendPre *State // state before the append being executed (operands of the sequence fact)
 	deferredPre []deferredPre
 	vc      *VC
 	eng     *Engine
@@ -1082,6 +1083,33 @@ func (fr *Frame) enterLoop(li *loopInfo, preds []*ssa.BasicBlock, edges []string
 				// here only the "allocated inside the loop" frame can be kept
 				nm := vc.freshRaw("M_"+k+"_loop", memSort(s))
 				if fr.onlyAllocWrites(li, s) {
+					// arrays that self-appended slice variables bring into the loop may be written in place
+					for b := range li.body {
+						for _, in := range b.Instrs {
+							call, ok := in.(*ssa.Call)
+							if !ok {
+								continue
+							}
+							if bi, ok := call.Call.Value.(*ssa.Builtin); !ok || bi.Name() != "append" {
+								continue
+							}
+							for _, e := range fr.selfAppended(li, fr.rootOf(call.Call.Args[0])) {
+								if _, have := fr.regs[e]; have || isConstLike(e) {
+									ref := fr.val(e)[0]
+									dup := false
+									for _, r := range ws.rows[s] {
+										if r == ref {
+											dup = true
+										}
+									}
+									if !dup {
+										ws.rows[s] = append(ws.rows[s], ref)
+									}
+								}
+							}
+						}
+					}
+					sort.Strings(ws.rows[s])
 					var dist []string
 					for _, r := range ws.rows[s] {
 						dist = append(dist, sNot(sEq("r", r)))
